@@ -303,7 +303,7 @@ def plan(tier, seed):
     if tier == "quick":
         layout = [("numpy", "64b", 30)] * 8 + [("jax", "64b", 10)] * 2 + [("pytorch", "64b", 16)] * 2 + [("tensorflow", "64b", 12)] * 2 + [("numpy", "32b", 12), ("pytorch", "32b", 10)]
     else:
-        layout = [("numpy", "64b", 700)] * 6 + [("jax", "64b", 150)] * 3 + [("pytorch", "64b", 400)] * 2 + [("tensorflow", "64b", 250)] * 2 + [("numpy", "32b", 400), ("pytorch", "32b", 250), ("jax", "32b", 100)]
+        layout = [("numpy", "64b", 1400)] * 6 + [("jax", "64b", 300)] * 3 + [("pytorch", "64b", 800)] * 2 + [("tensorflow", "64b", 500)] * 2 + [("numpy", "32b", 800), ("pytorch", "32b", 500), ("jax", "32b", 200)]
     return [{"backend": b, "precision": p, "n": n, "seed": seed * 15485863 + i} for i, (b, p, n) in enumerate(layout)]
 
 
